@@ -176,6 +176,8 @@ def disabled_sessions(ctx: Ctx):
         if got != want:
             ctx.report(f"disabled mode '{name}': snapshot(v) is not v (outcomes {got}, expected {want}, rc={rc})", {"kind": "disabled", "conf": name, "output": tail})
     ctx.coverage["oracle"]["disabled_sessions"] = len(confs)
+    from .. import xfailfam
+    xfailfam.check(ctx, "C06")
 
 
 SESSION_SRC = """from inline_snapshot import snapshot
@@ -302,6 +304,9 @@ def run(ctx: Ctx):
 
 def replay(ctx: Ctx, data):
     case = data["case"]
+    if case.get("kind") == "xfail":
+        from .. import xfailfam
+        return xfailfam.replay(case, "C06")
     if case.get("kind") == "diff":
         src = case["source"]
         hdr, _, rest = src.partition(REC)
